@@ -551,6 +551,25 @@ pub fn generate(ctx: &mut Ctx) {
             ctx.case("zones:json", &format!("json {}", vx::h(&j)));
         }
     }
+    // a connection that delivers pieces and then fails FOR EVER, every piece size 1..64 crossed with every failure
+    // offset, on rows that end in the two look-aheads the scanner makes on its own (`Z` + optional zone name, `@id ` +
+    // optional display name): whatever the scanner buffers must not be scanned a second time after the failure
+    for doc in [
+        "ver:\"3.0\"\nts\n2021-03-04T12:30:00Z\n2021-03-04T12:30:01Z\n2021-03-04T12:30:02Z\n2021-03-04T12:30:03Z\n",
+        "ver:\"3.0\"\nr,x\n@abc ,1\n@abd ,2\n@abe ,3\n@abf ,4\n",
+        "[2021-03-04T12:30:00Z,2021-03-04T12:30:01Z,@a ,@b ,2021-03-04T12:30:02Z]",
+    ] {
+        let h = vx::hex(doc.as_bytes());
+        let kstep = if ctx.quick() { 1 } else { 1 };
+        for chunk in 1usize..=64 {
+            if ctx.quick() && chunk > 24 && chunk % 4 != 0 {
+                continue;
+            }
+            for k in (0..=doc.len()).step_by(kstep) {
+                ctx.case("io:dead", &format!("io {h} {chunk} 0 {k}"));
+            }
+        }
+    }
     // chunked / interrupted / failing readers
     let ndocs = ctx.n(12, 100).min(docs.len() as u64) as usize;
     for d in docs.iter().take(ndocs) {
